@@ -293,7 +293,7 @@ def run(ctx):
         raise SystemExit(2)
     vlib.regen_consts(GROUP, CMD)
     proofs_ok, info = ctx.check_proofs(
-        make_targets=["Lin/CheckerProofs.vo", "Lin/ProtocolProofs.vo", "Lin/LocalityProofs.vo", "Properties/C04.vo"],
+        make_targets=["Lin/CheckerProofs.vo", "Lin/ProtocolProofs.vo", "Lin/LocalityProofs.vo", "Lin/BatchingProofs.vo", "Properties/C04.vo"],
         gate_paths=["Lin", "Properties/C04"])
     mok, mout, _ = vlib.model_build(GROUP)
     if not mok:
